@@ -83,6 +83,16 @@ def run(ctx):
             seqs.append((kbpk, [pick(k) for k in q]))
         for _ in range(ctx.n(40, 400)):
             seqs.append((kbpk, [pick(rng.choice(kinds)) for _ in range(rng.randrange(5, 10))]))
+        # the SAME input before and after an edit of the object: x, edit, x (a fast path for "same header as last time")
+        for x in pool["load_ok"][:4] + pool["unwrap_ok_A"][:1] + pool["unwrap_ok_B"][:1] + pool["unwrap_ok_D"][:1] + pool.get("unwrap_foreign_C", [])[:1]:
+            for edit in (pool["set_field"][0], pool["set_field"][3], pool["set_field"][6], pool["set_block"][0], pool["del_block"][0], pool["wrap"][0], pool["load_fail"][0]):
+                seqs.append((kbpk, [x, edit, x, ("S",)]))
+                seqs.append((kbpk, [x, edit, edit, x, pool["wrap"][0]]))
+        # the KBPK replaced (by another key of the same length) between two unwraps / wraps of every version
+        other = rng.randbytes(len(kbpk))
+        for vv in "ABCD":
+            for x in pool["unwrap_ok_" + vv][:2]:
+                seqs.append((kbpk, [x, ("K", other), x, ("K", kbpk), x, pool["wrap"][0], ("K", other), pool["wrap"][0], x]))
     # ---- correspondence: reused implementation object vs fold_left step of the model
     both, mops = t.run_both(seqs)
     nontriv = set()
